@@ -1,6 +1,6 @@
 (* C06 — property theorems only.  Each is closed by [exact <lemma>] and followed by
    Print Assumptions; the statements are pinned here so they cannot be quietly weakened. *)
-From FB Require Import C06.Model C18.Theory C06.Theory1 C06.Theory2 C06.Theory3 C06.Theory4 C06.Theory5 C06.Theory6.
+From FB Require Import C06.Model C06.ModelT C18.Theory C06.Theory1 C06.Theory2 C06.Theory3 C06.Theory4 C06.Theory5 C06.Theory6 C06.Theory7.
 
 (* ---- 1. descriptor rewriting preserves the shape and maps exactly the class names ---- *)
 
@@ -498,3 +498,211 @@ Print Assumptions C06_partial_row_witness.
 Theorem C06_round4_examples : round4_examples.
 Proof. exact round4_examples_hold. Qed.
 Print Assumptions C06_round4_examples.
+
+(* ================================================================== *)
+(* round 5 *)
+
+(* ---- 10. the default methods of the traits ARemapper / BRemapper (ModelT.v: one function per default
+   method, over whatever map_class_fail / map_field_fail / map_method_fail an implementor supplies, Err
+   handed on) ----
+     ARemapper::map_class              t_map_class        C06_default_map_class, _inv, C06_map_class_default
+     ARemapper::map_class_any          t_map_class_any    C06_defaults_a / _b (= a_/b_map_class_any: C06_map_desc_shape_array)
+     ARemapper::map_field_desc, map_method_desc, map_return_desc
+                                       t_map_desc         C06_map_desc_r_scan, _pure (= map_desc: C06_map_desc_scan and the shape theorems)
+     BRemapper::map_field, map_method, map_method_name_and_desc
+                                       t_map_member       C06_defaults_b (= map_field / map_method: C06_map_member_spec)
+     BRemapper::map_field_ref, map_method_ref_obj
+                                       t_map_member_ref   C06_defaults_b (= map_field_ref / map_method_ref_obj)
+     BRemapper::map_method_ref         t_map_method_ref   C06_defaults_b (= map_method_ref)
+   and the implementors / providers: ARemapperImpl (C06_defaults_a), BRemapperImpl (C06_defaults_b),
+   ARemapperAsBRemapper (C06_defaults_wrapper), NoSuperClassProvider (C06_no_supers), Vec<S> (C06_supers_app) *)
+
+(* map_class of ANY implementor: Err handed on; a mapping answered; a class WITHOUT a mapping answered
+   unchanged, whatever its shape (an `Outer$Inner` whose outer class is mapped included) *)
+Theorem C06_default_map_class : forall (mcf : mcf_t) c,
+  (mcf c = Err -> t_map_class mcf c = Err) /\
+  (forall x, mcf c = Ok (Some x) -> t_map_class mcf c = Ok x) /\
+  (mcf c = Ok None -> t_map_class mcf c = Ok c).
+Proof. exact t_map_class_spec. Qed.
+Print Assumptions C06_default_map_class.
+
+Theorem C06_default_map_class_inv : forall (mcf : mcf_t) c x, t_map_class mcf c = Ok x ->
+  mcf c = Ok (Some x) \/ (mcf c = Ok None /\ x = c).
+Proof. exact t_map_class_inv. Qed.
+Print Assumptions C06_default_map_class_inv.
+
+(* the map_class every other theorem of this file speaks about IS that default method *)
+Theorem C06_map_class_default :
+  (forall T c, a_map_class T c = match a_map_class_fail T c with Some x => x | None => c end) /\
+  (forall R c, b_map_class R c = match b_map_class_fail R c with Some x => x | None => c end).
+Proof. exact map_class_default. Qed.
+Print Assumptions C06_map_class_default.
+
+(* the scanner with a class map that may fail, on ALL strings: success exactly on the strings that split
+   into copied non-`L` characters and segments `L` name `;` whose names the class map answers *)
+Theorem C06_map_desc_r_scan : forall f s o, map_desc_r f s = Ok o <-> ScanR f s o.
+Proof. exact map_desc_r_scan. Qed.
+Print Assumptions C06_map_desc_r_scan.
+
+Theorem C06_map_desc_r_pure : forall f g s, (forall n, f n = Ok (g n)) -> map_desc_r f s = map_desc g s.
+Proof. exact map_desc_r_pure. Qed.
+Print Assumptions C06_map_desc_r_pure.
+
+(* a failing class map can only turn an answer into Err *)
+Theorem C06_map_desc_r_erase : forall f s o, map_desc_r f s = Ok o ->
+  map_desc (fun n => match f n with Ok x => x | Err => n end) s = Ok o.
+Proof. exact map_desc_r_erase. Qed.
+Print Assumptions C06_map_desc_r_erase.
+
+Theorem C06_defaults_a : forall T x,
+  t_map_class (a_mcf T) x = Ok (a_map_class T x) /\
+  t_map_desc (a_mcf T) x = a_map_desc T x /\
+  t_map_class_any (a_mcf T) x = a_map_class_any T x.
+Proof. exact a_defaults. Qed.
+Print Assumptions C06_defaults_a.
+
+Theorem C06_defaults_b : forall R I x o k,
+  t_map_class (b_mcf R) x = Ok (b_map_class R x) /\
+  t_map_desc (b_mcf R) x = b_map_desc R x /\
+  t_map_class_any (b_mcf R) x = b_map_class_any R x /\
+  t_map_member (b_mcf R) (map_field_fail R I) o k = map_field R I o k /\
+  t_map_member (b_mcf R) (map_method_fail R I) o k = map_method R I o k /\
+  t_map_member_ref (b_mcf R) (map_field_fail R I) o k = map_field_ref R I o k /\
+  t_map_member_ref (b_mcf R) (map_method_fail R I) o k = map_method_ref_obj R I o k /\
+  t_map_method_ref (b_mcf R) (map_method_fail R I) o k = map_method_ref R I o k.
+Proof. exact b_defaults. Qed.
+Print Assumptions C06_defaults_b.
+
+(* ARemapperAsBRemapper over ANY ARemapper *)
+Theorem C06_defaults_wrapper : forall (mcf : mcf_t) o k,
+  no_members o k = Ok None /\
+  t_map_member mcf no_members o k =
+    match t_map_desc mcf (snd k) with Ok d => Ok (fst k, d) | Err => Err end /\
+  t_map_member_ref mcf no_members o k =
+    match t_map_desc mcf (snd k) with
+    | Ok d => match t_map_class mcf o with Ok c' => Ok (c', (fst k, d)) | Err => Err end
+    | Err => Err
+    end /\
+  t_map_method_ref mcf no_members o k =
+    match (if is_array_name o then Ok k else match t_map_desc mcf (snd k) with Ok d => Ok (fst k, d) | Err => Err end) with
+    | Ok k' => match t_map_class_any mcf o with Ok c' => Ok (c', k') | Err => Err end
+    | Err => Err
+    end.
+Proof. exact wrapper_defaults. Qed.
+Print Assumptions C06_defaults_wrapper.
+
+(* NoSuperClassProvider: only the owner's own table *)
+Theorem C06_no_supers : forall sel R c k,
+  map_member_fail sel (default_fuel no_supers) R no_supers c k = Ok (declared sel R c k) /\
+  map_member sel (default_fuel no_supers) R no_supers c k =
+    match declared sel R c k with
+    | Some v => Ok v
+    | None => match b_map_desc R (snd k) with Ok d => Ok (fst k, d) | Err => Err end
+    end.
+Proof. exact no_supers_spec. Qed.
+Print Assumptions C06_no_supers.
+
+(* Vec<S>: the first provider that knows the class answers *)
+Theorem C06_supers_app : forall p1 p2 c,
+  supers (p1 ++ p2) c = match supers p1 c with Some ss => Some ss | None => supers p2 c end.
+Proof. exact supers_app. Qed.
+Print Assumptions C06_supers_app.
+
+(* ---- 11. JarSuperProv::remap without hypotheses ---- *)
+
+(* for ANY class map and ANY provider: the remapped provider answers for a class exactly what the LAST
+   entry whose key maps to that class lists, every super type mapped (IndexSet: first occurrences) *)
+Theorem C06_remap_prov_supers : forall f p c,
+  supers (remap_prov f p) c = get_last str_eqb c (remap_entries f p).
+Proof. exact remap_prov_supers. Qed.
+Print Assumptions C06_remap_prov_supers.
+
+Theorem C06_remap_prov_keys : forall f p,
+  NoDup (map fst (remap_prov f p)) /\ (forall x, In x (map fst (remap_prov f p)) <-> In x (map f (map fst p))).
+Proof. exact remap_prov_keys. Qed.
+Print Assumptions C06_remap_prov_keys.
+
+(* every entry of the result: key AND every listed super type are map_class of an original entry's —
+   whether or not the key itself is mapped (f k = k is not a special case) *)
+Theorem C06_remap_prov_entries : forall f p k' ss', In (k', ss') (remap_prov f p) ->
+  exists k ss, In (k, ss) p /\ k' = f k /\ ss' = set_of (map f ss) /\
+    (forall x, In x ss' <-> In x (map f ss)).
+Proof. exact remap_prov_entries. Qed.
+Print Assumptions C06_remap_prov_entries.
+
+(* every original entry is answered under its mapped key with its mapped super types *)
+Theorem C06_remap_prov_entry : forall f p k ss,
+  NoDup (map fst p) -> (forall a, In a (map fst p) -> f a = f k -> a = k) -> In (k, ss) p ->
+  supers (remap_prov f p) (f k) = Some (set_of (map f ss)).
+Proof. exact remap_prov_entry. Qed.
+Print Assumptions C06_remap_prov_entry.
+
+Theorem C06_set_of_spec : forall l, (forall x, In x (set_of l) <-> In x l) /\ NoDup (set_of l).
+Proof. exact set_of_spec. Qed.
+Print Assumptions C06_set_of_spec.
+
+(* with a remapper whose map_class may fail: Err exactly when some key or super type fails *)
+Theorem C06_remap_provs_r_pure : forall f g ps, (forall n, f n = Ok (g n)) -> remap_provs_r f ps = Ok (remap_provs g ps).
+Proof. exact remap_provs_r_pure. Qed.
+Print Assumptions C06_remap_provs_r_pure.
+
+Theorem C06_remap_provs_r_err : forall f ps,
+  remap_provs_r f ps = Err <->
+  exists p e n, In p ps /\ In e p /\ (n = fst e \/ In n (snd e)) /\ f n = Err.
+Proof. exact remap_provs_r_err. Qed.
+Print Assumptions C06_remap_provs_r_err.
+
+(* ---- 12. the member tables: sound AND complete ---- *)
+
+(* every registered table is the table of a class row, and every class row named in both namespaces has
+   its table; the entries of a table are EXACTLY the member rows with a name in `from` AND in `to`
+   (table_of_row: an iff per entry) — a member row without a target name is absent *)
+Theorem C06_tables_sound_complete : forall M from to R, remapper_b M from to = Ok R ->
+  (forall a cl, In (a, cl) R -> exists c, In c (ms_classes M) /\ table_of_row M from to c a cl) /\
+  (forall c a b, In c (ms_classes M) -> row_has from to a b c ->
+     exists cl, In (a, cl) R /\ b_name cl = b /\ table_of_row M from to c a cl).
+Proof. exact tables_sound_complete. Qed.
+Print Assumptions C06_tables_sound_complete.
+
+Theorem C06_no_target_not_declared_field : forall M from to R a k, remapper_b M from to = Ok R ->
+  (forall c f, In c (ms_classes M) -> nth_name (c_names c) from = Some a -> In f (c_fields c) ->
+     nth_name (f_names f) from = Some (fst k) -> a_map_desc (remapper_a M 0 from) (f_desc f) = Ok (snd k) ->
+     nth_name (f_names f) to = None) ->
+  declared b_fields R a k = None.
+Proof. exact no_target_not_declared_field. Qed.
+Print Assumptions C06_no_target_not_declared_field.
+
+Theorem C06_no_target_not_declared_method : forall M from to R a k, remapper_b M from to = Ok R ->
+  (forall c m, In c (ms_classes M) -> nth_name (c_names c) from = Some a -> In m (c_methods c) ->
+     nth_name (m_names m) from = Some (fst k) -> a_map_desc (remapper_a M 0 from) (m_desc m) = Ok (snd k) ->
+     nth_name (m_names m) to = None) ->
+  declared b_methods R a k = None.
+Proof. exact no_target_not_declared_method. Qed.
+Print Assumptions C06_no_target_not_declared_method.
+
+(* such an owner answers what its super types answer (it hides nothing) *)
+Theorem C06_undeclared_owner_inherits : forall sel R I rank c k, acyclic_rank I rank -> declared sel R c k = None ->
+  map_member_fail sel (default_fuel I) R I c k =
+    Ok (first_declaring (fun x => declared sel R x k) (tl (preorder I c))).
+Proof. exact undeclared_owner_inherits. Qed.
+Print Assumptions C06_undeclared_owner_inherits.
+
+(* ---- 13. the specification side is not truncated by fuel ---- *)
+
+(* on an acyclic provider the list the member theorems speak about is the depth-first pre-order itself: the
+   owner, then the pre-orders of its super types in declaration order (no fuel in the equation) *)
+Theorem C06_preorder_unfold : forall I rank c, acyclic_rank I rank ->
+  preorder I c = c :: match supers I c with Some ss => flat_map (preorder I) ss | None => [] end.
+Proof. exact preorder_unfold. Qed.
+Print Assumptions C06_preorder_unfold.
+
+Theorem C06_preorder_fuel : forall I rank c f, acyclic_rank I rank -> (default_fuel I <= f)%nat -> dfs_pre f I c = preorder I c.
+Proof. exact preorder_fuel. Qed.
+Print Assumptions C06_preorder_fuel.
+
+(* non-vacuity: a member row with a source name and no target name below a super type that carries the
+   real name; an unmapped `U$1` beside a mapped `U`; JarSuperProv::remap on an unmapped key with a mapped
+   super type and the way back through it; colliding keys; a failing class map; NoSuperClassProvider *)
+Theorem C06_round5_examples : round5_examples.
+Proof. exact round5_examples_hold. Qed.
+Print Assumptions C06_round5_examples.
